@@ -94,3 +94,14 @@ package aggregator
 //@   flag havoc=addPSource
 //@   before[C12.flt.canonical,C13.flt.canonical] addPSource requires defined(res_AccAddressFromBech32_0) &&
 //@        (res_AccAddressFromBech32_1 == nil ==> defined(res_String_0) && arg_validator == res_String_0)
+
+// C12 (power is counted for a value only under the source round it was reported for): the slot handed out for a
+// deterministic id is the slot OF THAT id, or none. (The list has room for every id of every validator - the filter
+// admits at most MaxDetID ids per validator and the capacity is MaxDetID x validators -, so a new id always finds a free
+// slot; on a full list the function would fall through with the LAST slot looked at.)
+//@ func (*roundPricesList).getOrNewRound
+//@   requires r != nil && len(r.roundPricesList) < cap(r.roundPricesList)
+//@   flag noframe
+//@   ensures[C12.gonr.own] round != nil ==> round.detID == detID
+//@ loop #1
+//@   invariant true
